@@ -33,6 +33,11 @@ type LevelSpec struct {
 	Salt      string   `json:"salt,omitempty"`
 	Iter      uint16   `json:"iter,omitempty"`
 	Servers   []string `json:"servers"`
+	// DSLayout, when set, is the DS RRset the parent publishes for this zone,
+	// in wire order: "ok" (SHA-256 of the KSK), "ok384", "ok1", "digest:<n>"
+	// (digest type nobody implements), "alg:<n>" (key algorithm nobody
+	// implements). Empty = what Mode implies.
+	DSLayout []string `json:"ds_layout,omitempty"`
 }
 
 // HierSpec is the serialisable description of one generated hierarchy.
@@ -41,13 +46,23 @@ type HierSpec struct {
 	Levels   []LevelSpec `json:"levels"`
 	NoAnchor bool        `json:"no_anchor,omitempty"`
 	QMin     int         `json:"qname_min_level"`
+	// Directed names a hand-built scenario (directed.go); "" = generated.
+	Directed string `json:"directed,omitempty"`
 }
 
 // Pattern is the signing pattern (evidence key component).
 func (h *HierSpec) Pattern() string {
 	var p []string
 	for _, l := range h.Levels {
-		p = append(p, l.Role[:1]+":"+string(l.Mode))
+		m := l.Role[:1] + ":" + string(l.Mode)
+		if len(l.DSLayout) > 0 {
+			if layoutUsable(l.DSLayout) {
+				m += "+mixds"
+			} else {
+				m += "+unusableds"
+			}
+		}
+		p = append(p, m)
 	}
 	s := strings.Join(p, "/")
 	if h.NoAnchor {
@@ -174,6 +189,7 @@ type world struct {
 	spec  *HierSpec
 	u     *authsim.Universe
 	zones map[string]*zm.Zone // by role
+	obs   dsObserver
 }
 
 func (w *world) apex(role string) string {
@@ -219,6 +235,9 @@ func buildWorld(h *HierSpec) *world {
 			o.DS = authsim.DSWrong
 		}
 		w.u.Delegate(p, c, o)
+		if lay := h.level(child).DSLayout; len(lay) > 0 {
+			p.SetDS(c.Apex(), layoutDS(c, lay), 0)
+		}
 	}
 	deleg("root", "tld")
 	deleg("tld", "zone")
@@ -243,6 +262,13 @@ func buildWorld(h *HierSpec) *world {
 			z.AddDNAME("dn."+a, o.Apex(), 300)
 		}
 		z.AddCNAME("loc."+a, "www."+a, 300)
+		if h.Directed != "" {
+			for _, n := range []string{"rec1", "out1", "out2"} {
+				z.AddMarked(n+"."+a, dns.TypeA, 300)
+			}
+			z.AddMarked("rec2."+a, dns.TypeTXT, 300)
+			z.AddMarked("out3."+a, dns.TypeTXT, 300)
+		}
 	}
 	fill("zone")
 	fill("other")
